@@ -684,3 +684,93 @@ def c05(ctx):
         ctx.counters["deep_interface_depth_ok"] = depth
     if not m["ok"] and not ctx.mismatches:
         raise Infra("Pipeline.tla fails with the live constants %s but the real code terminated on every input tried:\n%s" % (c, m["out"][-2500:]))
+
+
+# ------------------------------------------------------------------------------
+# Binding self-tests (./check Cxx --selftest): corrupt a recorded trace / a generated expectation and
+# require that the specification REJECTS it.  A self-test that passes a corrupted trace means the
+# trace spec constrains nothing.  Exit 0 = every corruption was rejected.
+
+def selftest(ctx):
+    import random
+    rnd = random.Random(ctx.seed)
+    failures = []
+    pid = ctx.prop
+    if pid in ("C01", "C02", "C04", "C08"):
+        d = ctx.dir("st")
+        trace, index = os.path.join(d, "trace.ndjson"), os.path.join(d, "cases.json")
+        ctx.vh(["v-text", "-n", "60", "-maxbytes", "40000", "-trace", trace, "-index", index, "-seed", str(ctx.seed), "-property", pid] +
+               (["-nd"] if pid == "C08" else []), merge=False)
+        lines = open(trace).read().splitlines()
+        # (a) flip one verdict  (b) change one byte of an exposed string / drop a root  in an accepted case
+        acc = [i for i, l in enumerate(lines) if '"ok":true' in l]
+        rej = [i for i, l in enumerate(lines) if '"ok":false' in l]
+        for name, mut in (("verdict flipped to false", lambda l: l.replace('"ok":true', '"ok":false')),
+                          ("verdict flipped to true", lambda l: l.replace('"ok":false', '"ok":true')),
+                          ("exposed document emptied", lambda l: json.dumps(dict(json.loads(l), doc=[])))):
+            pool = rej if "to true" in name else acc
+            if not pool:
+                continue
+            i = rnd.choice(pool)
+            ev = json.loads(lines[i])
+            if "emptied" in name and not ev["doc"]:
+                continue
+            m = list(lines)
+            m[i] = mut(lines[i])
+            r = ctx.tlc("JsonTrace", files={"trace.ndjson": ("\n".join(m) + "\n").encode()}, workers=1, check=False, label="selftest " + name)
+            res = json.load(open(os.path.join(r["dir"], "result.json")))
+            if ev["id"] not in res["bad"]:
+                failures.append("JsonTrace accepted a trace with " + name)
+    if pid in ("C05", "C07", "C15"):
+        c = live_consts(ctx)
+        d = ctx.dir("st")
+        t = os.path.join(d, "free.ndjson")
+        ctx.vh(["v-pipe", "-family", "free", "-n", "6", "-trace", t, "-seed", str(ctx.seed), "-property", pid], merge=False)
+        lines = open(t).read().splitlines()
+
+        def run_trace(ls, name):
+            before = len(ctx.mismatches)
+            p = os.path.join(d, "mut.ndjson")
+            open(p, "w").write("\n".join(ls) + "\n")
+            pipeline_trace_validate(ctx, c, p, pid)
+            got = len(ctx.mismatches) > before
+            del ctx.mismatches[before:]
+            if not got:
+                failures.append("PipelineTrace accepted a trace with " + name)
+        sent = [i for i, l in enumerate(lines) if '"e":"Sent"' in l]
+        recvd = [i for i, l in enumerate(lines) if '"e":"Recvd"' in l and '"b":-1' not in l]
+        pres = [i for i, l in enumerate(lines) if '"e":"PreSend"' in l]
+        i = rnd.choice(sent)
+        run_trace(lines[:i] + lines[i + 1:], "one Sent event dropped")
+        i = rnd.choice(recvd)
+        ev = json.loads(lines[i]); ev["sum"] = (ev["sum"] + 1) % 4000000000
+        run_trace(lines[:i] + [json.dumps(ev)] + lines[i + 1:], "one received buffer's checksum changed")
+        i = rnd.choice(pres)
+        ev = json.loads(lines[i]); ev["slot"] = (ev["slot"] + 1) % c["slots"]
+        run_trace(lines[:i] + [json.dumps(ev)] + lines[i + 1:], "one buffer sent from the wrong ring slot")
+        i = rnd.choice(recvd)
+        run_trace(lines[:i] + [lines[i], lines[i]] + lines[i + 1:], "one Recvd event duplicated")
+    if pid == "C03":
+        import numexact
+        recs = [("0.1", 0x3fb999999999999a), ("1e23", 0x44b52d02c7e14af6), ("9007199254740993", 0x4340000000000001), ("5e-324", 1)]
+        ok, bad = numexact.decide_rounding(ctx, recs, 1, 10, timeout=300)
+        if ok != len(recs) - 1 or [b[0] for b in bad] != ["9007199254740993"]:
+            failures.append("Apalache rounding batch: expected exactly 9007199254740993 -> ...0001 (should be ...0000) to fail, got ok=%d bad=%s" % (ok, bad))
+    if pid == "C18":
+        import numexact
+        recs = [("0.1", 0x3fb999999999999a), ("0.10000000000000001", 0x3fb999999999999a), ("5e-324", 1), ("0.3", 0x3fd3333333333334)]
+        ok, bad = numexact.decide_rounding(ctx, recs, 1, 10, timeout=300, case=numexact.shortest_case, tag="ShortestSelf")
+        if sorted(b[0] for b in bad) != ["0.10000000000000001", "0.3"]:
+            failures.append("Apalache shortest batch: expected the non-shortest 0.10000000000000001 and the wrong 0.3 to fail, got ok=%d bad=%s" % (ok, bad))
+    if pid == "C20":
+        files = {"trace.ndjson": b'{"e":"Get","pool":"p","obj":"a"}\n{"e":"Get","pool":"p","obj":"a"}\n{"e":"Put","pool":"p","obj":"a"}\n{"e":"Put","pool":"p","obj":"b"}\n'}
+        r = ctx.tlc("PoolsTrace", files=files, workers=1, check=False, label="selftest pools")
+        res = json.load(open(os.path.join(r["dir"], "result.json")))
+        if len(res["bad"]) != 2:
+            failures.append("PoolsTrace: a double Get and a foreign Put should both be rejected, got %s" % res["bad"])
+    ctx.extra["selftest_failures"] = failures
+    for f in failures:
+        log("SELFTEST-FAILED: " + f)
+    log("[%s] selftest: %s" % (pid, "all corruptions rejected" if not failures else "%d corruption(s) accepted" % len(failures)))
+    if failures:
+        raise Infra("binding self-test failed: " + "; ".join(failures))
